@@ -21,6 +21,7 @@ from __future__ import annotations
 import ast
 
 from ..affine import Lin, lin
+from ..helpers import collect_loop
 from ..facts import atoms, call_is, meth_is, strip
 from ..model import AnalysisError, is_self_attr, norm
 from ..report import Ctx
@@ -73,6 +74,18 @@ def v2_size_ok(N, V):
             a, b = b, a
         if is_const(b) and isinstance(b[1], int):
             n, floor = a, b[1]
+    if n[0] == "ite" and strip(n[1])[0] == "cmp":
+        # max spelled as a conditional: `c if X < c else X` and its mirror images
+        c = strip(n[1])
+        op, l, r = c[1], strip(c[2]), strip(c[3])
+        th, el = strip(n[2]), strip(n[3])
+        if is_const(l) and not is_const(r):
+            l, r, op = r, l, {"<": ">", ">": "<", "<=": ">=", ">=": "<="}.get(op, op)
+        if is_const(r) and isinstance(r[1], int):
+            if op in ("<", "<=") and th == r and el == l:
+                n, floor = l, r[1]
+            elif op in (">", ">=") and th == l and el == r:
+                n, floor = l, r[1]
     ok = call_is(n, "int.from_bytes") and len(n[2]) >= 1
     if ok:
         fld = strip(n[2][0])
@@ -227,7 +240,8 @@ def run(ctx):
         fs = summarize(prog, f)
         for lpn in [n for n in ast.walk(f.node) if isinstance(n, ast.For)]:
             it = fs.ta.terms_at.get(lpn.iter)
-            if it is None or not any(call_is(x, f"{AC}._send_command_get_responses") for x in subterms(it)):
+            src = collect_loop(fs, f, strip(it)) if it is not None else None
+            if it is None or not any(call_is(x, f"{AC}._send_command_get_responses") for x in list(subterms(it)) + list(subterms(src or ()))):
                 continue
             ctx.count("update_loops")
             body_calls = [n for n in ast.walk(lpn) if isinstance(n, ast.Call) and attr_call(n, "_update_state")]
@@ -235,7 +249,8 @@ def run(ctx):
             arg_ok = all(isinstance(c.args[0], ast.Name) and isinstance(lpn.target, ast.Name) and c.args[0].id == lpn.target.id for c in body_calls)
             its = strip(it)
             whole = (its[0] == "await" and call_is(strip(its[1]), f"{AC}._send_command_get_responses")) or \
-                (its[0] == "comp" and its[1] == "list" and its[2] == ("bound", its[3][-1][0]) and all(not g[2] for g in its[3]))
+                (its[0] == "comp" and its[1] == "list" and its[2] == ("bound", its[3][-1][0]) and all(not g[2] for g in its[3])) or \
+                collect_loop(fs, f, its) is not None
             uncond = uncond and whole
             ctx.ob("C01.c", q, uncond and arg_ok, f"{q.split('.')[-1]}: every response of the exchange is passed to _update_state", func=q, file=f.module.rel, node=lpn,
                    fail=f"{q.split('.')[-1]} does not apply every response it received (only some / the first / under a condition)")
@@ -243,6 +258,13 @@ def run(ctx):
     rfs = summarize(prog, rf)
     comp = [t for n, t in rfs.ta.terms_at.items() if isinstance(n, ast.ListComp)]
     c_ok = any(t[0] == "comp" and t[2] == ("bound", t[3][-1][0]) and not t[3][-1][2] and not t[3][0][2] and any(call_is(x, f"{AC}._send_command_get_responses") for x in subterms(t[3][-1][1])) for t in comp)
+    if not c_ok:
+        # statement form: responses = []; for cmd in commands: responses.extend(await send(cmd))   (also += / nested append)
+        for lpn in [n for n in ast.walk(rf.node) if isinstance(n, ast.For)]:
+            it = rfs.ta.terms_at.get(lpn.iter)
+            src = collect_loop(rfs, rf, strip(it)) if it is not None else None
+            if src is not None and any(call_is(x, f"{AC}._send_command_get_responses") for x in subterms(src)):
+                c_ok = True
     ctx.ob("C01.c", rf.qual, c_ok, "refresh collects every response of every command it sent (no filter)", func=rf.qual, file=rf.module.rel, construct="responses comprehension",
            fail="refresh filters or truncates the responses it collects")
     cmds = {x[1][1].split(".")[-1] for n, t in rfs.ta.terms_at.items() for x in subterms(t) if x[0] == "call" and x[1][0] == "func" and x[1][1].startswith(CMD) and x[1][1].endswith("Command")}
